@@ -64,6 +64,16 @@ Definition plain_world (lim : limiter) (resp : response) : world :=
   {| w_lim := lim; w_ctx := CtxLive; w_follow := true; w_hops := []; w_hop_status := 302;
      w_resp := resp |}.
 
+(* every element of a response body carries a text (user / display name / first comment); the
+   body generator of the harness numbers the texts and gives element (kind, id) the text
+     text_index kind id  =  (h xor (h >> 17)) mod 10,   h = (kind * 1000003 + id * 2654435761) mod 2^64
+   (Go's wrapping uint64 arithmetic).  Decoding keeps an element's text: what comes back for
+   (kind, id) must be that text. *)
+Definition two64 : Z := 18446744073709551616.
+Definition text_index (kind id : Z) : Z :=
+  let h := ((kind mod 10) * 1000003 + (id mod two64) * 2654435761) mod two64 in
+  (Z.lxor h (Z.shiftr h 17)) mod 10.
+
 (* the error classes the harness can observe *)
 Inductive err_class := CNone | CNotFound | CForbidden | CGone | CURITooLong | CUnexpected | COther.
 
